@@ -405,6 +405,35 @@ func timeDrv(args []string) {
 		T, base, obs := genHistory(rng, mode == "c06")
 		runHistory(w, rng, T, base, obs, "gen")
 	}
+	// the exact boundaries, every constellation: a handler started at the very first millisecond of the
+	// constellation's week whose first epoch is that millisecond (timestamp 0), two messages per epoch, the last
+	// millisecond of the week, timestamp 0 again at the rollover, GLONASS day boundaries
+	for ci, c := range conNames {
+		off := weekStart(c, weekMs) - weekMs // start of c's week relative to the UTC week
+		ws := 2*weekMs + off
+		base := sundays[(ci+int(tr.Seed()))%len(sundays)].AddDate(0, 0, -7)
+		mk := func(us ...int64) []obsSpec {
+			var o []obsSpec
+			for i, u := range us {
+				o = append(o, obsSpec{c: c, mt: conTypes[c][i%2], u: u})
+			}
+			return o
+		}
+		at := func(t int64) time.Time {
+			return base.Add(time.Duration(t) * time.Millisecond).In(zones[(ci+int(t&3))%len(zones)])
+		}
+		rest := []int64{ws + 1000, ws + dayMs - 1, ws + dayMs, ws + dayMs, ws + 6*dayMs, ws + weekMs - 1, ws + weekMs - 1,
+			ws + weekMs, ws + weekMs, ws + weekMs + 1, ws + weekMs + 3*dayMs - 1, ws + weekMs + 3*dayMs}
+		runHistory(w, rng, at(ws), base, mk(append([]int64{ws, ws}, rest...)...), "boundary")
+		runHistory(w, rng, at(ws), base, mk(append([]int64{ws, ws + 1}, rest...)...), "boundary")
+		runHistory(w, rng, at(ws+1), base, mk(append([]int64{ws + 1, ws + 1}, rest...)...), "boundary")
+		runHistory(w, rng, at(ws), base, mk(append([]int64{ws + 1}, rest...)...), "boundary")
+		if mode != "c06" {
+			// C17: any start time in the week of the first observation, the first observation may be earlier
+			runHistory(w, rng, at(ws+weekMs-1), base, mk(append([]int64{ws, ws}, rest...)...), "boundary")
+			runHistory(w, rng, at(ws+3*dayMs), base, mk(append([]int64{ws, ws + 1}, rest...)...), "boundary")
+		}
+	}
 	// direction B: behaviours simulated by TLC from TimeTrack_MC, concretised
 	if len(args) > 2 {
 		f, err := os.Open(args[2])
